@@ -45,10 +45,16 @@ def mk(cfg, unit):
                    bounds='opcodes 0x00..0x25 concrete + one symbolic opcode 0x26..0xff; lengths: exact, exact-1, exact+1 (quick) plus 1, exact+2, 27 (thorough); '
                           'all payload bytes, procedure flags, used features, procedure timeout symbolic')
 
+PROC = Harness('c27_proc', LLD0, 'harness/c27_proc.c', [{'MODE': 0}, {'MODE': 1}, {'MODE': 2}], unwind=40, timeout=1800,
+               description='procedure response timeout: MODE 0 sending the request PDU of a pending peripheral initiated procedure starts the 40 s timer; '
+                           'MODE 1 timeout() / MODE 2 end_event() without a received PDU and the timer running: the connection is closed with reason 0x22 '
+                           'exactly when the remaining time has elapsed',
+               bounds='remaining time 1 us..40 s, time since the last anchor 0..36 s, all connection parameters symbolic; no received PDU in the event')
+
 PROPERTY = Property(
     'C27',
-    [mk(0, LLD0), mk(1, LLD1), mk(2, LLD2)],
-    functions=['link_layer::handle_ll_control_data', 'link_layer::reject', 'phy_update_request_impl::handle_phy_request',
+    [mk(0, LLD0), mk(1, LLD1), mk(2, LLD2), PROC],
+    functions=['link_layer::handle_ll_control_data', 'link_layer::transmit_pending_control_pdus', 'link_layer::timeout', 'link_layer::end_event', 'link_layer::force_disconnect', 'link_layer::reject', 'phy_update_request_impl::handle_phy_request',
                'link_layer_security_impl::handle_encryption_pdus', 'no_desired_connection_parameters::handle_connection_parameters_request',
                'desired_connection_parameters_base::parse_and_check_params'],
     bounds='single steps from every state satisfying the invariant; three link layer configurations',
@@ -62,8 +68,8 @@ PROPERTY = Property(
                 'LL_CONNECTION_PARAM_RSP or a reject (reject required for out of range parameters), LL_ENC_RSP / LL_PAUSE_ENC_RSP (encryption configuration); '
                 'unknown, unsupported and malformed requests get LL_UNKNOWN_RSP (or LL_REJECT_EXT_IND) naming the opcode; LL_UNKNOWN_RSP of any length and well-formed rejects get nothing; '
                 'other response PDUs get nothing or LL_UNKNOWN_RSP naming them, never anything else; at most one PDU per received PDU; the link is ended only by LL_TERMINATE_IND or an unmeetable instant.',
-    outside=['procedure response timeout (40 s): not decided in this version of the check (planned as step harness on end_event()/timeout() with symbolic procedure_timeout_); '
-             'read in the source: connection parameter request and version exchange start the 40 s timer, the PHY request (phy_update_request) does not',
+    outside=['procedure response timeout: that an answer (LL_CONNECTION_UPDATE_IND at its instant, LL_REJECT_*, LL_UNKNOWN_RSP, LL_VERSION_IND) stops the timer is not asserted; '
+             'connection events that carry received PDUs while the timer runs (end_event with a filled receive ring does not finish, see C29)',
              'a LL_VERSION_IND received after the peripheral itself sent one (remote_versions_request) is answered with a second LL_VERSION_IND (read in the source, no flag records the sent PDU); '
              'the step harness has no state to express it',
              'desired_connection_parameters / asynchronous_connection_parameter_request option sets; data length extension (LL_LENGTH_REQ is answered LL_UNKNOWN_RSP)',
